@@ -11,7 +11,8 @@ def _corrupt(v):
     return {"canary": v}
 
 
-def replay_cases(run, scratch, name, cases, kind, want_key="want", signature=None, extra_args=None):
+def replay_cases(run, scratch, name, cases, kind, want_key="want", signature=None, extra_args=None,
+                 header=None, corrupt=None):
     """Run TLC-produced cases through the real library (pgv replay <kind>).
 
     A corrupted copy of the first case is appended as binding canary: the harness must report it
@@ -19,9 +20,15 @@ def replay_cases(run, scratch, name, cases, kind, want_key="want", signature=Non
     if not cases:
         raise ToolError(f"{name}: TLC produced no cases")
     canary = copy.deepcopy(cases[0])
-    canary[want_key] = _corrupt(canary[want_key])
+    if corrupt:
+        canary = corrupt(canary)
+    else:
+        canary[want_key] = _corrupt(canary[want_key])
     path = scratch.path(f"cases-{name}.ndjson")
-    write_ndjson(path, cases + [canary])
+    # `header` lines (e.g. the shared query list) precede the cases; the harness numbers lines,
+    # so case k is line k + len(header)
+    header = header or []
+    write_ndjson(path, header + cases + [canary])
     p = pgv(["replay", kind, path] + (extra_args or []))
     summary, mism = None, []
     for line in p.stdout.splitlines():
@@ -32,27 +39,33 @@ def replay_cases(run, scratch, name, cases, kind, want_key="want", signature=Non
             mism.append(o["mismatch"])
     if summary is None:
         raise ToolError(f"{name}: harness gave no summary: {p.stdout[-500:]} {p.stderr[-500:]}")
+    for m in mism:
+        m["case"] -= len(header)
+    per_case = {k - len(header): v for k, v in summary.get("per_case", [])}
     canary_idx = len(cases)
-    caught = [m for m in mism if m["case"] == canary_idx]
+    caught = per_case.get(canary_idx, 0)
     run.canary[name] = {"corrupted_case_rejected": bool(caught)}
     if not caught:
         raise ToolError(f"{name}: binding canary was accepted by the harness")
     real = [m for m in mism if m["case"] != canary_idx]
-    ncanary_calls = len(caught)
+    bad_cases = sorted(k for k in per_case if k != canary_idx)
     run.traces += len(cases)
     run.evaluations += summary["calls"]
-    total_mismatches = summary["mismatches"] - ncanary_calls
     run.steps.append({"step": name + ":replay", "cases": len(cases), "impl_calls": summary["calls"],
-                      "mismatches": total_mismatches})
+                      "mismatching_calls": summary["mismatches"] - caught, "mismatching_cases": len(bad_cases)})
+    seen = set()
     for m in real:
+        if m["case"] in seen:
+            continue
+        seen.add(m["case"])
         c = cases[m["case"]]
         sig = {"step": name, "api": m["api"]}
         if signature:
             sig.update(signature(c, m))
         run.violation(name, {"signature": sig, "case": c, "api": m["api"], "expected_by_spec": m["want"],
-                             "observed": m["got"]})
-    if total_mismatches > len(real):
-        run.nviol += total_mismatches - len(real)
+                             "observed": m["got"], "mismatching_calls_in_case": per_case.get(m["case"])})
+    # cases whose details were not printed still count
+    run.nviol += max(0, len(bad_cases) - len(seen)) if not run.known else 0
     return summary
 
 
